@@ -776,10 +776,10 @@ pub fn phases(cfg: &Cfg) -> Vec<Box<dyn Phase>> {
             keys_per_start: if cfg.thorough { 220 } else { 40 },
         }),
         Box::new(Histories {
-            n: cfg.n(6_000, 100_000),
+            n: cfg.n(6_000, 400_000),
         }),
         Box::new(ManyNames {
-            n: cfg.n(400, 12_000),
+            n: cfg.n(400, 40_000),
         }),
         Box::new(MacroBuilt {
             ops: all_ops(&["a", "b"]),
